@@ -138,6 +138,19 @@ impl CoreDocumentData {
     Ok(())
   }
 
+  /// Number of entries in each of the method and service collections.
+  fn collection_sizes(&self) -> [usize; 7] {
+    [
+      self.verification_method.len(),
+      self.authentication.len(),
+      self.assertion_method.len(),
+      self.key_agreement.len(),
+      self.capability_delegation.len(),
+      self.capability_invocation.len(),
+      self.service.len(),
+    ]
+  }
+
   // Apply the provided fallible functions to the DID components of `id`, `controller`, methods and services
   // respectively.
   fn try_map<F, G, H, L, E>(
@@ -884,9 +897,18 @@ impl CoreDocument {
     L: FnMut(CoreDID) -> std::result::Result<CoreDID, E>,
     M: FnOnce(crate::Error) -> E,
   {
+    let sizes_before: [usize; 7] = self.data.collection_sizes();
     let data = self
       .data
       .try_map(id_update, controller_update, methods_update, service_update)?;
+    // Rebuilding the ordered sets keeps only the first of several entries with the same identifier, so a collection
+    // that became smaller means the updates produced identical identifiers.
+    if data.collection_sizes() != sizes_before {
+      return Err(error_cast(Error::InvalidDocument(
+        "attempted to update identifiers such that entries of one collection share an identifier",
+        None,
+      )));
+    }
     CoreDocument::try_from(data).map_err(error_cast)
   }
 
